@@ -340,6 +340,31 @@ PROPS["C04"] = dict(
     explanation="Mixed, reported separately: obligations discharged for the Python glue; the round trip is a bounded oracle.",
     limit_quick=400, limit_thorough=20000)
 
-CLAIMED = {"C01", "C03", "C04", "C20", "C02", "C05", "C06", "C16", "C18", "C11", "C14", "C17", "C07", "C15", "C08", "C09", "C19"}
+PROPS["C10"] = dict(
+    level="other", needs_ext=True,
+    technique="contract-based deductive verification of the WCS chains over the reals (own VC generator over the real ast + z3: "
+              "order of offset / CD matrix / distortion per convention, definite assignment, coefficient layout of the PV and SIP "
+              "polynomials, longitude fold, RA-difference wrap, empty frame of the forward transform) plus labelled bounded "
+              "oracles for the floating-point statements (long-double FITS reference, inversion accuracy, call histories)",
+    level_text="Proved (reals, scalar inputs): image2sky and sky2image(find=False) for each projection x distortion model x distort flag "
+               "compose offset, CD matrix, distortion polynomial and (de)projection in the order of the respective convention "
+               "(PV after the CD matrix, SIP before it, inverse chain reversed), every local is assigned on every branch, and the "
+               "object is left untouched; ApplyCDMatrix is the 2x2 linear map; Apply2DPolynomial is sum a[i,j] x^i y^j (2x2 and "
+               "3x3 matrices); ExtractPVCoeffs places PV1_k / PV2_k at the powers the TPV convention gives them and "
+               "ExtractSIPCoeffs A_p_q at [p,q]; _rotate returns longitude in [-180,180] and latitude in [-90,90]; image2sph "
+               "folds the longitude into [0,360); wrap_ra_diff returns a value in [-180,180] that differs from its input by whole "
+               "turns. Bounded: image2sky against an independent long-double FITS-WCS reference to 1e-9 degree on the sphere "
+               "(TAN, TPV, SIP; reference points at the poles and the RA=0 seam; reference pixels far outside the image), the "
+               "reference pixel, scalar/array agreement, inversion to 1e-6 pixel with root finding and to the fit's own rms "
+               "without, the jacobian against displaced points, and random call interleavings against fresh objects.",
+    level_note="Assumed: image2sph / sph2image as deterministic functions of their arguments and the rotation matrix (value "
+               "checked bounded), Apply2DPolynomial for general order (uninterpreted; index convention proved to order 2), libm "
+               "range axioms for arctan / arctan2 / sin / cos. Root finding (scipy fsolve), the least-squares inverse fit, array "
+               "inputs and the lazy first computation of the inverse coefficients are covered by the bounded oracles only.",
+    explanation="Mixed, reported separately: proved = structure and conventions over the reals for scalar inputs; bounded = all "
+                "floating-point accuracy statements of the property.",
+    limit_quick=200, limit_thorough=5000)
+
+CLAIMED = {"C10", "C01", "C03", "C04", "C20", "C02", "C05", "C06", "C16", "C18", "C11", "C14", "C17", "C07", "C15", "C08", "C09", "C19"}
 NOT_APPLICABLE = {("C%02d" % k): "check not built yet (implementation in progress; plan in DESIGN.md section 8)"
                   for k in range(1, 21) if ("C%02d" % k) not in CLAIMED}
